@@ -168,7 +168,7 @@ func c13MustErr(tag string) bool {
 		return !strings.HasSuffix(tag, "/arr0")
 	case strings.HasPrefix(tag, "json-shape/entry/"):
 		return true
-	case tag == "json-nokey", tag == "json-shape/key/null", tag == "xml-nokey":
+	case tag == "json-nokey", tag == "json-shape/key/null", tag == "xml-nokey", tag == "xml-shape/cont/text":
 		return true
 	case strings.HasPrefix(tag, "path-key-on-"), strings.HasPrefix(tag, "path-below-"):
 		return true
@@ -486,9 +486,11 @@ func c13Exec(w *c13World, rq *c13Req) (resp c13Resp) {
 	return
 }
 
-// wall-clock limit of one request inside the worker (the slowest legitimate request, a 12000-deep XML
-// document rejected by the decoder, takes 0.6 s on an idle machine)
-const c13ReqLimit = 10 * time.Second
+// wall-clock limit of one request inside the worker. The slowest legitimate requests are deeply nested XML
+// documents: patch/xml recurses once per level up to its own limit of 10000 levels ("exceeded max depth"),
+// which needs a goroutine stack of a few hundred MB - 0.4 s on an idle machine, close to 10 s the first time
+// in a process on a loaded one; the streams therefore stay at 5000 levels and the limit is generous.
+const c13ReqLimit = 20 * time.Second
 
 func c13Worker(ctx *core.Ctx) error {
 	nw := 6
